@@ -1,5 +1,6 @@
 import Dassh.Gen.C04
 import Dassh.Gen.C04Gap
+import Dassh.Gen.C04GapAvg
 import Dassh.Gen.C04Ur
 import Mathlib.Algebra.Order.Field.Basic
 import Mathlib.Tactic.FieldSimp
@@ -254,5 +255,18 @@ theorem c04_byp_7_66_ca (e : Env K) (hp : Pos e) (hwc : e.wc_0_1 ≤ e.wc_1_1)
 example : ∃ e : Env ℚ, Pos e := by
   refine ⟨⟨1,1,1,1,1,1,1,1,1,1,1,1,1,1,1,1,1,1,1,1,1,1,1,1,1,1,1,1,1,1,1,1,1,1,1,1,1,1,1,1,1/6,1/100⟩, ?_⟩
   constructor <;> norm_num
+
+/-! ### No-flow and duct-average gap models (last clause of C04)
+
+`Dassh.Gen.C04GapAvg` (regenerated from the real `Core._noflow_model` / `_duct_average_model` on every run) holds, for every gap
+cell of the traced two- and three-assembly cores, `gapnf_*` / `gapda_*`: the new gap temperature is the combination of the
+adjacent duct-wall and neighbouring gap temperatures with the traced weights, every weight is non-negative, the weights sum to
+one; and `*_bounds`: it lies between any bounds of those temperatures.  The generic step is `Dassh.Convex.bounds<k>`. -/
+
+/-- a convex combination of values that are all equal returns that value (uniform field reproduced) -/
+theorem c04_convex_uniform (w1 w2 w3 t : K) (h1 : 0 ≤ w1) (h2 : 0 ≤ w2) (h3 : 0 ≤ w3) (hs : w1 + w2 + w3 = 1) :
+    w1 * t + w2 * t + w3 * t = t := by
+  have := Dassh.Convex.bounds3 w1 w2 w3 t t t t t h1 h2 h3 hs ⟨le_refl _, le_refl _⟩ ⟨le_refl _, le_refl _⟩ ⟨le_refl _, le_refl _⟩
+  exact le_antisymm this.2 this.1
 
 end Dassh.Props.C04
